@@ -32,6 +32,8 @@ structure Cluster where
   id : Nat
   attrs : List Leaf
   cmds : List Leaf
+  /-- the cluster's event table (`access` = the event's declared access; `array` unused) -/
+  events : List Leaf := []
 deriving DecidableEq, Repr, Inhabited
 
 structure Endpoint where
@@ -48,6 +50,7 @@ deriving DecidableEq, Repr, Inhabited
 inductive Status
   | unsupportedEndpoint | unsupportedCluster | unsupportedAttribute | unsupportedCommand
   | unsupportedRead | unsupportedWrite | needsTimedInteraction | unsupportedAccess
+  | unsupportedEvent
 deriving DecidableEq, Repr, Inhabited
 
 /-- what is fixed during one expansion: the ACL state, the requester, the request's timed flag and
@@ -270,6 +273,134 @@ def run (ctx : Ctx) (op : Operation) (node : Node) : Nat → St → List Out
 def expand (ctx : Ctx) (op : Operation) (node : Node) (paths : List Path) (fuel : Nat) : List Out :=
   run ctx op node fuel { items := paths }
 
+/-! ## events: `Cluster::check_event_access`, `Node::validate_event_path`, `im.rs` `report_events`,
+`im/events.rs` `EventReader::{matches_fabric, matches_path, matches_access}` -/
+
+/-- `Cluster::events()`: the events the instantiation includes -/
+def Cluster.evs (c : Cluster) : List Leaf := c.events.filter (·.enabled)
+
+/-- `Cluster::check_event_access` (declaration looked up in the unfiltered table) -/
+def checkEventAccess (ctx : Ctx) (c : Cluster) (ep : Nat) (deviceTypes : List Nat) (evId : Nat) :
+    Except Status Unit :=
+  let targetPerms := ((c.events.find? (fun a => a.id == evId)).map (·.access)).getD 0
+  if allow ctx.fabrics (mkReq ctx ep c.id evId deviceTypes READ targetPerms) then .ok ()
+  else .error .unsupportedAccess
+
+/-- `Node::validate_event_path` with `validate_cluster_path` inlined (the optional node-id component
+of an event path is not modelled). A wildcard component ends the validation with `Ok`. -/
+def validateEventPath (ctx : Ctx) (node : Node) (p : Path) : Except Status Unit :=
+  match p.endpoint with
+  | none => .ok ()
+  | some ep =>
+    match node.find? (fun e => e.id == ep) with
+    | none => .error .unsupportedEndpoint
+    | some e =>
+      match p.cluster with
+      | none => .ok ()
+      | some cl =>
+        match e.clusters.find? (fun c => c.id == cl) with
+        | none => .error .unsupportedCluster
+        | some c =>
+          match p.leaf with
+          | none => .ok ()
+          | some ev =>
+            match c.evs.find? (fun l => l.id == ev) with
+            | none => .error .unsupportedEvent
+            | some l => checkEventAccess ctx c e.id e.deviceTypes l.id
+
+/-- one event in the queue: its concrete path and the `FabricIndex` field of its payload
+(`fab = 0`: the payload carries none, the event is not fabric-sensitive) -/
+structure EventOcc where
+  ep : Nat
+  cl : Nat
+  ev : Nat
+  fab : Nat
+  /-- the event number the queue assigned (used only to tell occurrences apart) -/
+  num : Nat := 0
+deriving DecidableEq, Repr, Inhabited
+
+inductive EvOut
+  | status (path : Path) (s : Status)
+  | data (e : EventOcc)
+deriving DecidableEq, Repr
+
+def EventOcc.path (e : EventOcc) : Path := { endpoint := some e.ep, cluster := some e.cl, leaf := some e.ev }
+
+def isOkE : Except Status Unit → Bool
+  | .ok _ => true
+  | .error _ => false
+
+/-- `EventReader::matches_fabric` -/
+def matchesFabric (ctx : Ctx) (e : EventOcc) : Bool := e.fab == 0 || e.fab == ctx.accessor.fabIdx
+
+/-- `EventReader::matches_path` (event paths in the queue are concrete) -/
+def eventMatchesPath (ctx : Ctx) (node : Node) (p : Path) (e : EventOcc) : Bool :=
+  isOkE (validateEventPath ctx node p) &&
+    ((p.endpoint.isNone || p.endpoint == some e.ep) && (p.cluster.isNone || p.cluster == some e.cl) &&
+      (p.leaf.isNone || p.leaf == some e.ev))
+
+/-- the event part of `ReportDataResponder::report_events` (no event-number filters, one chunk):
+first the statuses of the concrete request paths that do not validate — except `UnsupportedEvent`,
+which the code skips (`continue`, see the TODO there) —, then the queued events that pass the
+fabric filter, match a valid requested path and whose own path validates (`matches_access`) -/
+def reportEvents (ctx : Ctx) (node : Node) (fabricFiltered : Bool) (paths : List Path)
+    (queue : List EventOcc) : List EvOut :=
+  (paths.filterMap fun p =>
+    if !isWildcard p then
+      match validateEventPath ctx node p with
+      | .ok _ => none
+      | .error .unsupportedEvent => none
+      | .error s => some (.status p s)
+    else none) ++
+  (queue.filter fun e =>
+    (!fabricFiltered || matchesFabric ctx e) &&
+    paths.any (fun p => eventMatchesPath ctx node p e) &&
+    isOkE (validateEventPath ctx node e.path)).map .data
+
+/-- drain the iterator while the node composition is replaced between `next` calls
+(`PathExpanderIterator::next` takes the node afresh from `Metadata::access` on every call): call `i`
+sees `nodes[i]`; the run stops when the expander is exhausted or the schedule ends -/
+def runSwap (ctx : Ctx) (op : Operation) : List Node → St → List Out
+  | [], _ => []
+  | node :: rest, st =>
+    match next ctx op node st with
+    | none => []
+    | some (o, st') => o :: runSwap ctx op rest st'
+
+/-- the swap run stopped because the expander was exhausted (not because the schedule ran out) -/
+def swapEnded (ctx : Ctx) (op : Operation) : List Node → St → Bool
+  | [], _ => false
+  | node :: rest, st =>
+    match next ctx op node st with
+    | none => true
+    | some (_, st') => swapEnded ctx op rest st'
+
+/-- the documented invariant across node replacements: an endpoint id denotes the same endpoint
+(clusters, leaves, device types) in every composition seen during the request -/
+def stableNodes (nodes : List Node) : Bool :=
+  nodes.all fun n => nodes.all fun n' => n.all fun e => n'.all fun e' => e.id != e'.id || e == e'
+
+/-! ## termination measure of the expander (used by the driver as the number of `next` calls)
+
+The three cursors `(endpoint position, cluster_index, leaf_index)` decrease lexicographically with
+every yield; `mE` is that lexicographic order flattened into one number (remaining endpoints, each
+weighted by its remaining clusters, each weighted by its remaining leaves). `Props/C06` proves that
+`fuelBound` calls of `next` always suffice on a node whose endpoints are sorted by id. -/
+
+/-- remaining weight of a cluster list from leaf index `li` inside its first cluster -/
+def mC (op : Operation) : List Cluster → Nat → Nat
+  | [], _ => 0
+  | c :: rest, li => 1 + ((c.leaves (op == .invoke)).length - li) + mC op rest 0
+
+/-- remaining weight of an endpoint list from the cursor `(ci, li)` inside its first endpoint -/
+def mE (op : Operation) : List Endpoint → Nat → Nat → Nat
+  | [], _, _ => 0
+  | e :: rest, ci, li => 1 + mC op (e.clusters.drop ci) li + mE op rest 0 0
+
+/-- number of `next` calls after which the expansion of `paths` has certainly ended -/
+def fuelBound (op : Operation) (node : Node) (paths : List Path) : Nat :=
+  paths.length * (mE op node 0 0 + 2) + 1
+
 /-! ## `im.rs`: the timed window in front of a write / invoke -/
 
 inductive TimedGate | proceed | timedRequestMismatch | timeout
@@ -281,6 +412,48 @@ def timedGate (timedReq : Bool) (timeoutInstant : Option Nat) (now : Nat) : Time
   if timedReq != timeoutInstant.isSome then .timedRequestMismatch
   else if (timeoutInstant.map (fun t => decide (now > t))).getD false then .timeout
   else .proceed
+
+/-! ## `im.rs`: what happens to a whole request before / around the expansion -/
+
+/-- `validate_read` / `validate_attr_wildcard_path`: a wildcard cluster with a concrete attribute id
+is only allowed for global attributes -/
+def readValid (paths : List Path) : Bool :=
+  paths.all fun p => !(p.cluster.isNone && (p.leaf.map (fun a => decide (a < Consts.globalAttrMin))).getD false)
+
+/-- `invoke`: at most `max_paths_per_invoke` commands; several commands need pairwise distinct paths
+(the harness always supplies distinct `CommandRef`s) -/
+def invokeValid (paths : List Path) : Bool :=
+  decide (paths.length ≤ Consts.maxPathsPerInvoke) && (paths.length ≤ 1 || decide paths.Nodup)
+
+/-- the outcome of one request as seen by the controller and by the handlers -/
+structure Outcome where
+  /-- request-level status (`none`: the request was processed path by path) -/
+  top : Option String
+  /-- the per-path answers -/
+  resp : List Out
+  /-- the calls the handlers received, in order -/
+  effects : List (Nat × Nat × Nat)
+deriving DecidableEq, Repr
+
+def itemsOf (outs : List Out) : List (Nat × Nat × Nat) :=
+  outs.filterMap fun
+    | .item ep cl lf _ _ => some (ep, cl, lf)
+    | .status _ _ => none
+
+/-- `InteractionModel::{handle, read, write, invoke}` around a given answer list `answers` (the
+expansion): the timed gate for writes / invokes, request validation, then one handler call per
+item. `tr` = `Some(timeout, elapsed)` if a TimedRequest preceded the action. -/
+def imRequest (op : Operation) (flag : Bool) (tr : Option (Nat × Nat)) (paths : List Path)
+    (answers : List Out) : Outcome :=
+  let gate := if op == .read then TimedGate.proceed
+    else timedGate flag (tr.map (·.1)) ((tr.map (·.2)).getD 0)
+  match gate with
+  | .timedRequestMismatch => { top := some "TimedRequestMisMatch", resp := [], effects := [] }
+  | .timeout => { top := some "Timeout", resp := [], effects := [] }
+  | .proceed =>
+    if (op == .read && !readValid paths) || (op == .invoke && !invokeValid paths) then
+      { top := some "InvalidAction", resp := [], effects := [] }
+    else { top := none, resp := answers, effects := itemsOf answers }
 
 /-! # Specification (from the text of C06)
 
@@ -372,5 +545,76 @@ def nodeWF (node : Node) : Bool :=
   (node.map (·.id)).Pairwise (· < ·) &&
   node.all fun e => (e.clusters.map (·.id)).Nodup &&
     e.clusters.all fun c => (c.attrs.map (·.id)).Nodup && (c.cmds.map (·.id)).Nodup
+
+/-! ## specification for a request answered while the node composition changes (`node_swap_safe`) -/
+
+/-- clause 1: the item exists on the node of its call, matches a requested path, is reachable,
+passes the filter and is permitted -/
+def itemPermittedOn (ctx : Ctx) (op : Operation) (node : Node) (paths : List Path) (ep cl lf : Nat) : Bool :=
+  node.any fun e => e.id == ep && reachable ctx e && e.clusters.any fun c => c.id == cl &&
+    (specLeaves c op).any fun l => l.id == lf && ctx.filter ep cl lf && (permitted ctx op e c l).isNone &&
+      paths.any fun p => matchesOpt p.endpoint ep && matchesOpt p.cluster cl && matchesOpt p.leaf lf
+
+/-- clause 3: the leaves a wildcard path owes for endpoints present in every composition seen -/
+def owedThroughout (ctx : Ctx) (op : Operation) (nodes : List Node) (p : Path) : List (Nat × Nat × Nat) :=
+  match nodes with
+  | [] => []
+  | n0 :: rest =>
+    n0.flatMap fun e =>
+      if rest.all (fun n => n.contains e) && matchesOpt p.endpoint e.id && reachable ctx e then
+        e.clusters.flatMap fun c =>
+          if matchesOpt p.cluster c.id then
+            (specLeaves c op).filterMap fun l =>
+              if matchesOpt p.leaf l.id && ctx.filter e.id c.id l.id && (permitted ctx op e c l).isNone then
+                some (e.id, c.id, l.id)
+              else none
+          else []
+      else []
+
+/-! ## specification for event paths (from the text of C06: "… exactly those … events that exist on
+the node, match the requested path and are permitted for the requester: a wildcard silently omits
+the rest, a concrete path that is absent or not permitted yields the corresponding status … and
+fabric-sensitive data of other fabrics is not disclosed") -/
+
+def specEvents (c : Cluster) : List Leaf := c.events.filter (·.enabled)
+
+/-- reading an event is permitted: access control (specification of C05) grants READ against the
+event's declared access -/
+def permittedEvent (ctx : Ctx) (e : Endpoint) (c : Cluster) (l : Leaf) : Bool :=
+  grantedB ctx.fabrics (mkReq ctx e.id c.id l.id e.deviceTypes READ l.access)
+
+/-- concrete event path: the status of the first level that fails, `none` if the event exists and is
+permitted -/
+def expectedEventStatus (ctx : Ctx) (node : Node) (ep cl ev : Nat) : Option Status :=
+  match node.find? (fun e => e.id == ep && reachable ctx e) with
+  | none => some .unsupportedEndpoint
+  | some e =>
+    match e.clusters.find? (fun c => c.id == cl) with
+    | none => some .unsupportedCluster
+    | some c =>
+      match (specEvents c).find? (fun l => l.id == ev) with
+      | none => some .unsupportedEvent
+      | some l => if permittedEvent ctx e c l then none else some .unsupportedAccess
+
+/-- an occurrence is disclosed: it exists on the node, is permitted, matches a requested path and —
+when fabric filtering is on — is not a fabric-sensitive event of another fabric -/
+def eventVisible (ctx : Ctx) (node : Node) (fabricFiltered : Bool) (paths : List Path) (o : EventOcc) : Bool :=
+  (expectedEventStatus ctx node o.ep o.cl o.ev).isNone &&
+  paths.any (fun p => matchesOpt p.endpoint o.ep && matchesOpt p.cluster o.cl && matchesOpt p.leaf o.ev) &&
+  (!fabricFiltered || o.fab == 0 || o.fab == ctx.accessor.fabIdx)
+
+/-- **The specification for event paths**: a status for every concrete path that is absent or not
+permitted (request order), then every disclosed occurrence once, in queue order -/
+def expectedEvents (ctx : Ctx) (node : Node) (fabricFiltered : Bool) (paths : List Path)
+    (queue : List EventOcc) : List EvOut :=
+  (paths.filterMap fun p =>
+    match p.endpoint, p.cluster, p.leaf with
+    | some ep, some cl, some ev => (expectedEventStatus ctx node ep cl ev).map (EvOut.status p)
+    | _, _, _ => none) ++
+  (queue.filter (eventVisible ctx node fabricFiltered paths)).map .data
+
+/-- event ids distinct per cluster (added to `nodeWF` for event statements) -/
+def eventsWF (node : Node) : Bool :=
+  node.all fun e => e.clusters.all fun c => (c.events.map (·.id)).Nodup
 
 end Expand
